@@ -1,7 +1,8 @@
 (* C07 — best-feature safety net.  Statements only; proofs in Proofs/BrewDecisionP.v. *)
 From Coq Require Import Sorted.
-From Mokaverif Require Import Model.Base Model.Tdc Model.PinCols Model.BrewDecision Model.Confidence.
-From Mokaverif Require Import Proofs.BrewDecisionP.
+From Coq Require Import Permutation.
+From Mokaverif Require Import Model.Base Model.Tdc Model.PinCols Model.BrewDecision Model.Confidence Model.Brew.
+From Mokaverif Require Import Proofs.BrewDecisionP Proofs.BrewEnsP.
 Open Scope nat_scope.
 
 (* models: (feat_pass, override) per fold model; pt: targets accepted at the evaluation FDR under
@@ -58,6 +59,55 @@ Theorem C07_direction : forall (row : Type) (s : row -> Z) (lkey : nat -> row ->
     StronglySorted (fun a b => (s a <= s b)%Z) (nth 0%nat out []).
 Proof. exact lower_is_better. Qed.
 Print Assumptions C07_direction.
+
+(* brew(ensemble=True) (R2.22): the models come back in ascending fold order; pt = the targets the AVERAGED scores
+   accept at the evaluation FDR; the decision is the SAME function bd_decide (hence C07_safety_net holds verbatim) of
+   the (feat_pass, override) of the models in fold order and pt: either the averaged scores with descs all True, or
+   the best feature of the chosen model, with its direction, for every collection *)
+Theorem C07_ensemble_decision : forall c k thr fitted files folds scores descs,
+  bw_brew_ens c k thr fitted files = Ok (folds, (scores, descs)) ->
+  let models := bw_sort_fitted fitted in
+  let ms := map (fun m => (bf_feat_pass m, bf_override m)) models in
+  folds = map bf_fold models /\ StronglySorted le folds /\ Permutation models fitted /\
+  exists sums pt,
+    bw_brew_ens_sums c k models files = Ok sums /\
+    bd_pred_total thr (combine sums (map bc_targets files)) = Ok pt /\
+    match bd_decide ms pt with
+    | None =>
+        descs = map (fun _ => true) files /\
+        scores = map (map (bw_ens_mean (if forallb bf_trained models then length models else 1))) sums
+    | Some i =>
+        exists m, nth_error models i = Some m /\
+          descs = map (fun _ => bf_desc m) files /\
+          bw_all_ok (map (fun fl => match nth_error (bc_feats fl) (bf_best m) with
+                                    | Some col => Ok (map inject_Z col) | None => Err EKey end) files) = Ok scores
+    end.
+Proof. exact brew_ens_decision. Qed.
+Print Assumptions C07_ensemble_decision.
+
+(* the accepted targets are counted on the integer SUMS of the fold models' values: the mean sum / k ranks (and
+   ties) exactly as the sum does *)
+Theorem C07_ensemble_mean_order : forall k a b, 1 <= k ->
+  ((bw_ens_mean k a < bw_ens_mean k b)%Q <-> (a < b)%Z) /\ ((bw_ens_mean k a == bw_ens_mean k b)%Q <-> a = b).
+Proof. intros k a b Hk. split; [exact (ens_mean_order k a b Hk)|exact (ens_mean_eq k a b Hk)]. Qed.
+Print Assumptions C07_ensemble_mean_order.
+
+(* fall-back to feature 1 (lower is better) of the first model with the largest feat_pass; kept with override; an
+   untrained model: zero scores, which accept nothing *)
+Example C07_ensemble_example :
+  let keys := [5;3;5;9;3;5;1]%Z in
+  let A := [9;8;7;6;5;4;3]%Z in let B := [1;2;3;4;5;6;7]%Z in let C := [2;2;2;2;9;9;9]%Z in
+  let fl := Build_bw_coll keys [true;true;false;true;false;true;false] [A; B; C] in
+  bw_brew_ens 2 3 (1#2)%Q [Build_bw_fitted 2 true 4 false 1 false [B]; Build_bw_fitted 3 true 4 false 2 true [C];
+                            Build_bw_fitted 1 true 1 false 0 true [A]] [fl]
+    = Ok ([1; 2; 3], ([[1; 2; 3; 4; 5; 6; 7]%Q], [false])) /\
+  bw_brew_ens 2 3 (1#2)%Q [Build_bw_fitted 2 true 4 true 1 false [B]; Build_bw_fitted 3 true 4 true 2 true [C];
+                            Build_bw_fitted 1 true 1 true 0 true [A]] [fl]
+    = Ok ([1; 2; 3], ([[12#3; 12#3; 12#3; 12#3; 19#3; 19#3; 19#3]%Q], [true])) /\
+  bw_brew_ens 2 3 (1#2)%Q [Build_bw_fitted 2 true 0 false 1 false [B]; Build_bw_fitted 3 false 0 false 2 true [C];
+                            Build_bw_fitted 1 true 0 false 0 true [A]] [fl]
+    = Ok ([1; 2; 3], ([[0; 0; 0; 0; 0; 0; 0]%Q], [true])).
+Proof. vm_compute. repeat split. Qed.
 
 Example C07_example :
   bd_decide [(9, false); (12, false); (12, false)] 10 = Some 1 /\
